@@ -33,6 +33,9 @@ open ZnVerif.Properties.C03
 #print axioms ZnVerif.Proofs.RenderLex.dispatch_cmt
 #print axioms ZnVerif.Proofs.RenderLex.nextToken_lit
 #print axioms ZnVerif.Proofs.RenderLex.gstepOK_lit
+#print axioms ZnVerif.Proofs.RenderLex.cmt_multi_run
+#print axioms ZnVerif.Proofs.RenderLex.dispatch_mcmt
+#print axioms ZnVerif.Proofs.RenderLex.gstepOK_mcmt
 #print axioms ZnVerif.Proofs.LexSim.run_inOrder_clean
 #print axioms ZnVerif.Proofs.RenderLex.skipBlank_ws
 #print axioms ZnVerif.Proofs.RenderLex.skipBlank_brk
@@ -41,3 +44,6 @@ open ZnVerif.Properties.C03
 #print axioms LiteralExample.mlEls_wf
 #print axioms LiteralExample.mlTokens_eq
 #print axioms LiteralExample.mlProgram_rendered
+#print axioms MultiCommentExample.mcEls_wf
+#print axioms MultiCommentExample.mcTokens_eq
+#print axioms MultiCommentExample.mcProgram_rendered
